@@ -90,6 +90,12 @@ def add_stale(rng, seed, spec):
     dbrig.insert_rows({'yapp': iso['yapp']}, random.Random(seed + 1))
     from django_evolution.models import Version
     ysig = dbrig.sig_from_models({'yapp': iso['yapp']}).get_app_sig('yapp')
+    if seed % 2 == 0:
+        # every other stale app had been handed over to Django migrations before it was uninstalled: its entry
+        # records the upgrade method and the migrations applied
+        from django_evolution.consts import UpgradeMethod
+        ysig.upgrade_method = UpgradeMethod.MIGRATIONS
+        ysig.applied_migrations = ['0001_initial', '0002_more']
     v = Version.objects.current_version()
     s = v.signature
     s.add_app_sig(ysig)
